@@ -7,3 +7,4 @@ open Emboss.View
 #print axioms C01_next_is_prev_end
 #print axioms C01_alias_reads_target
 #print axioms C01_prefix_monotone_counterexample
+#print axioms C01_size_covers_present_fields
